@@ -37,6 +37,7 @@ def run(ctx: Ctx) -> None:
     ctx.rule("R-ENCODE-cell", "table cell text has the pipe re-escaped")
     ctx.rule("R-ENCODE-verbatim", "only content-preserving operations between a verbatim field and the output")
     ctx.rule("R-BOUND", "emitted fence length >= longest fence-like run + 1, same fence character")
+    ctx.rule("R-STATE", "per-block accumulators of the renderer are reset before a paragraph / heading renders its children")
     ctx.rule("R-HAZARD", "first-word language of each paragraph-interrupting block start is covered by the line-start escaper")
     ctx.rule("R-ESCAPE-SITE", "the escaper is applied to the first word of every continuation line in Markdown mode")
     ctx.rule("R-ESCAPE-ACTION", "the escaper returns the word or the word with a single backslash inserted")
@@ -50,6 +51,7 @@ def run(ctx: Ctx) -> None:
     ctx.run(render.check_prefix)
     ctx.run(render.check_encode)
     ctx.run(render.check_fence_bound)
+    ctx.run(render.check_block_accumulators)
     ctx.run(hazard.check_hazards)
     ctx.run(hazard.check_escape_site)
     ctx.run(hazard.check_escape_action)
